@@ -266,6 +266,25 @@ def _worker(a):
                       {"a": "reply", "svc": sv0, "text": "OK bob"}] + \
                      [{"a": "reply", "svc": n, "text": "OK"} for n, p_ in cfg.services[1:]] + [{"a": "hurry"}, {"a": "registered"}]
     tables = gen.reload_tables(rng, cfg.services, extra=1, n=2) if a.get("reload") else None
+    if a.get("directed") == "leaver-barrier":
+        # Y and X are both asked by chal.svc; Y gets a (non-final or final) answer; a reload removes chal.svc while X still waits;
+        # Y leaves before or after that reload; then chal.svc answers X.  X alone sees the same reload at the same place of its script.
+        y, x = ids[0], ids[1]
+        ids = [y, x]
+        yrep = rng.choice(["AGAIN retry", "MORE prove it", "OK acct1", "OK"])
+        scripts = {
+            y: [{"a": "announce", "ip": "192.0.2.1", "port": 1024}, {"a": "password", "text": "+x acct1 pw"}, {"a": "reply", "svc": "chal.svc", "text": yrep},
+                {"a": rng.choice(["disconnect", "registered"])}],
+            x: [{"a": "announce", "ip": "192.0.2.2", "port": 1025}, {"a": "password", "text": "+x acct2 pw"},
+                {"a": "reply", "svc": "chal.svc", "text": rng.choice(["OK acct2", "NO refused"])},
+                {"a": "host", "name": "h.example"}, {"a": "ident", "name": "id"}, {"a": "nick", "name": "nn"}, {"a": "userinfo", "user": "u", "real": "r"},
+                {"a": "reply", "svc": "keep.svc", "text": "OK"}, {"a": "hurry"}],
+        }
+        tables = [[("keep.svc", "dronecheck")]]
+        if rng.random() < 0.5:
+            a["merges"] = [[y, y, x, x, y, "R0", y, x, x, x, x, x, x, x]]
+        else:
+            a["merges"] = [[y, y, x, x, y, y, "R0", x, x, x, x, x, x, x]]
     run_merge.tables = tables
     res = {"viol": [], "stats": {"script_sets": 1, "merges_run": 0, "distinct_interleavings": 0, "client_conversations_compared": 0,
                                  "audits": 0, "steps": 0, "conversation_lines": 0}, "inconc": [], "hash": vcommon.h([cfgj, seed]), "hashes": []}
@@ -338,6 +357,7 @@ def _worker(a):
             cuts = sorted(rng.sample(range(len(order) // 4, max(len(order) // 4 + 2, len(order) * 3 // 4)), 2 if rng.random() < 0.4 else 1))
             for ri, c in enumerate(cuts):
                 order.insert(c + ri, "R%d" % ri)
+        if tables and any(isinstance(x, str) for x in order):
             refs_now = {}
             for cid in ids:
                 sp = []
@@ -378,7 +398,7 @@ def _worker(a):
             res["stats"]["batch_replays"] = res["stats"].get("batch_replays", 0) + 1
             if why:
                 res["viol"].append(("C07", "one-piece-delivery", "one-piece-delivery", "%s\ninterleaving: %s\ninput:\n%s" % (why, order, "\n".join(sent_lines[:80])),
-                                    {"config": cfgj, "seed": seed, "order": order, "nclients": nclients, "length": length}))
+                                    {"config": cfgj, "seed": seed, "order": order, "nclients": nclients, "length": length, "directed": a.get("directed"), "early_comeback": a.get("early_comeback"), "reload": a.get("reload")}))
                 break
         for cid in ids:
             res["stats"]["client_conversations_compared"] += 1
@@ -387,7 +407,7 @@ def _worker(a):
                 text = ("client %d's conversation differs between running alone and interleaved with clients %s\n%s\nscript of client %d: %s\ninterleaving: %s" % (
                     cid, [c for c in ids if c != cid], diff, cid, [short(x) for x in scripts[cid]], order))
                 res["viol"].append(("C07", "conversation", "conversation:" + diff_class(refs_now[cid], conv[cid]), text,
-                                    {"config": cfgj, "seed": seed, "order": order, "nclients": nclients, "length": length}))
+                                    {"config": cfgj, "seed": seed, "order": order, "nclients": nclients, "length": length, "directed": a.get("directed"), "early_comeback": a.get("early_comeback"), "reload": a.get("reload")}))
                 break
         if res["viol"]:
             break
@@ -434,6 +454,11 @@ def run(chk, tier, scale=1.0):
         rng = random.Random("c07b/%d/%d" % (chk.seed, i))
         cfg = pcommon.random_config(rng, want_class=False)
         jobs.append(dict(build=b, config=cfg.to_json(), seed=rng.randrange(1 << 30), nclients=10, length=10, nmerges=3 if tier == "quick" else 10))
+    # directed: a client that was answered leaves around a reload that removes the service another client still waits on
+    for i in range(8 if tier == "quick" else 80):
+        rng = random.Random("c07l/%d/%d" % (chk.seed, i))
+        cfg = proto.Config([("chal.svc", rng.choice(["login", "login-ipr"])), ("keep.svc", "dronecheck")], timeout=3600)
+        jobs.append(dict(build=b, config=cfg.to_json(), seed=rng.randrange(1 << 30), nclients=2, length=9, nmerges=1, directed="leaver-barrier"))
     # many announcements (serials run into two hex digits) with ids that come back while a previous holder's answer is still under way
     for i in range(6 if tier == "quick" else 60):
         rng = random.Random("c07s/%d/%d" % (chk.seed, i))
@@ -480,7 +505,8 @@ def _worker_wrap(a):
 def replay(chk, rep):
     b = prun.build_daemon("c07-replay")
     w = rep["witness"]
-    a = dict(build=b, config=w["config"], seed=w["seed"], nclients=w.get("nclients", 3), length=w.get("length", 12), nmerges=1, merges=[w["order"]])
+    a = dict(build=b, config=w["config"], seed=w["seed"], nclients=w.get("nclients", 3), length=w.get("length", 12), nmerges=1, merges=[w["order"]],
+             directed=w.get("directed"), early_comeback=w.get("early_comeback"), reload=w.get("reload"))
     r = _worker(a)
     for v in r["viol"]:
         print(v[3])
